@@ -18,7 +18,7 @@ from fractions import Fraction
 from lib import core
 
 DRIVER = "drv_pdf"
-LEAN_TARGETS = ["OmplModel.Props.C12", DRIVER, "drv_est"]
+LEAN_TARGETS = ["OmplModel.Props.C12", DRIVER, "drv_est", "drv_projest"]
 HFLAGS = ("-D_GLIBCXX_ASSERTIONS", "-D_GLIBCXX_SANITIZE_VECTOR")
 EPS = Fraction(1, 2 ** 53)
 B = core.f2bits
@@ -1201,9 +1201,268 @@ def est_judge(ck, p, res):
     return False
 
 
+# ================================================================================== third engine: ProjEST
+# The shipped user that combines ompl::PDF with ompl::Grid: geometric::ProjEST keeps its motions in grid cells keyed by
+# projection coordinate and a PDF over CELLS with weight 1/|cell motions|.  Lock-step runs of the REAL planner
+# (harness/projest.cpp) against the Lean model (drv_projest, on top of the PDF model and the C13 Grid model), plus an
+# independent Python oracle on the planner's own outputs.
+PROJEST_DRIVER = "drv_projest"
+
+
+def build_projest(ck):
+    return ck.build_harness("projest", ["projest.cpp"], link_ompl=True)
+
+
+class ProjProblem(EstProblem):
+    def config(self):
+        L = EstProblem.config(self)
+        L[0] = "projest %d" % self.dim
+        L.append("proj %d %s %s" % (len(self.comps), " ".join(map(str, self.comps)), " ".join(map(B, self.sizes))))
+        return L
+
+    def coord(self, x):
+        return tuple(int(math.floor(x[c] / sz)) for c, sz in zip(self.comps, self.sizes))
+
+    def describe(self):
+        d = EstProblem.describe(self)
+        d.update({"engine": "projest", "proj": list(self.comps), "cells-per-axis": self.cpa})
+        return d
+
+    @staticmethod
+    def from_script(lines):
+        e = EstProblem.from_script(lines)
+        p = ProjProblem(e.dim, e.lo, e.hi, e.pdim, e.boxes, e.res, e.rng, e.bias, e.goal, e.thr, e.starts, e.seed, e.iters, "replay")
+        p.cpa = None
+        for ln in lines:
+            t = ln.split()
+            if t[0] == "projest":
+                p.dim = int(t[1])
+            if t[0] == "proj":
+                k = int(t[1])
+                p.comps = [int(x) for x in t[2:2 + k]]
+                p.sizes = [F(x) for x in t[2 + k:2 + 2 * k]]
+        return p
+
+
+def gen_proj_problem(r, i, big=False):
+    e = gen_est_problem(r, i, big)
+    p = ProjProblem(e.dim, e.lo, e.hi, e.pdim, e.boxes, e.res, e.rng, e.bias, e.goal, e.thr, e.starts, e.seed, e.iters, e.tag)
+    if p.tag == "all-neighbours":
+        p.tag = "random"
+    if p.dim == 2:
+        p.comps = r.choice([[0, 1], [0, 1], [1], [1, 0]])
+    else:
+        p.comps = r.choice([[0, 1], [0, 2], [0, 1, 2], [2]])
+    # few big cells (many motions per cell: update path) ... many small cells (mostly the add path)
+    p.cpa = r.choice([1, 2, 5, 20, 60])
+    p.sizes = [(p.hi[c] - p.lo[c]) / float(p.cpa) * r.choice([1.0, 1.0, 0.77]) for c in p.comps]
+    return p
+
+
+def proj_parse_cells(line):
+    t = line.split()
+    hd = dict(x.split("=") for x in t[1:4])
+    cells = []
+    for tok in t[4:]:
+        k, coord, el, ms = tok.split(":")
+        motions = []
+        for m in ms.split(";"):
+            st, _, par = m.partition("^")
+            motions.append(([F(x) for x in st.split(",")], par))
+        cells.append({"k": int(k), "coord": tuple(int(x) for x in coord.split(",")), "elem": el, "motions": motions})
+    return hd, cells
+
+
+def projest_oracle(p, R):
+    """the property at the planner level, on the REAL planner's outputs: one PDF element per non-empty grid cell (and
+    back, via elem_), every motion in exactly the cell of its projection coordinate, the weight of a cell's element the
+    coded function of the cell's CURRENT motion count (1 for a singleton, 1.0/count otherwise), the tree rooted in valid
+    starts with checked edges, the reported path a root-to-node branch with truthful flags."""
+    if R.get("exception"):
+        return "solve threw: " + R["exception"]
+    for k in ("statusline", "cells", "pdf", "path", "next"):
+        if k not in R:
+            return "harness output lacks the %s line" % k
+    kv = R["kv"]
+    try:
+        hd, cells = proj_parse_cells(R["cells"])
+    except Exception as e:  # noqa
+        return "unparsable cell table (%r)" % (e,)
+    ncell = len(cells)
+    if int(hd["n"]) != ncell or int(hd["grid"]) != ncell:
+        return "the PDF holds %s cells, the grid %s" % (hd["n"], hd["grid"])
+    total = sum(len(c["motions"]) for c in cells)
+    if total != int(hd["motions"]):
+        return "tree_.size is %s but the cells hold %d motions" % (hd["motions"], total)
+    seen = set()
+    loc = {}
+    for c in cells:
+        if c["elem"] != "e%d" % c["k"]:
+            return "cell %d: elem_ back-pointer / grid lookup broken (%s)" % (c["k"], c["elem"])
+        if not c["motions"]:
+            return "cell %d is empty" % c["k"]
+        if c["coord"] in seen:
+            return "two cells with coordinate %r" % (c["coord"],)
+        seen.add(c["coord"])
+        for j, (st, par) in enumerate(c["motions"]):
+            loc["%d.%d" % (c["k"], j)] = (st, par)
+            if p.coord(st) != c["coord"]:
+                return "a motion with projection coordinate %r sits in cell %r" % (p.coord(st), c["coord"])
+            if not p.valid(st):
+                return "tree state in cell %d is invalid" % c["k"]
+    roots = sorted(st for st, par in loc.values() if par == "-1")
+    vstarts = sorted(s_ for s_ in p.starts if p.valid(s_))
+    if roots != vstarts:
+        return "tree roots %r are not the valid start states %r" % (roots, vstarts)
+    lvs = F(kv["lvs"])
+    for key, (st, par) in loc.items():
+        if par == "-1":
+            continue
+        if par not in loc:
+            return "motion %s has a parent that is in no cell (%s)" % (key, par)
+        if not p.check_motion(loc[par][0], st, lvs):
+            return "the motion from %s to its child %s is in the tree although checkMotion rejects it" % (par, key)
+    # ---- the PDF over cells
+    try:
+        t = R["pdf"].split()[1:]
+        pn = int(t[0][2:])
+        ordtoks = [x for x in t[1][4:].split(",") if x]
+        ix = [x for x in t[2][3:].split(",") if x]
+        nrows = int(t[3][5:])
+        rows = []
+        for tok in t[4:4 + nrows]:
+            ln, _, vals = tok[1:-1].partition(":")
+            rows.append([F(v) for v in vals.split(",") if v])
+    except Exception as e:  # noqa
+        return "unparsable pdf dump (%r)" % (e,)
+    if pn != ncell or ordtoks != [str(i) for i in range(ncell)]:
+        return "PDF elements %s do not point back from their cells (elem_)" % ",".join(ordtoks)
+    if ix != [str(i) for i in range(pn)]:
+        return "PDF index_ fields out of sync: %s" % ",".join(ix)
+    if ncell:
+        want = [ncell]
+        while want[-1] > 1:
+            want.append((want[-1] + 1) // 2)
+        if [len(rw) for rw in rows] != want:
+            return "PDF row sizes %s, expected %s" % ([len(rw) for rw in rows], want)
+        for c in cells:
+            cnt = len(c["motions"])
+            w = 1.0 if cnt == 1 else 1.0 / cnt
+            got = rows[0][c["k"]]
+            if B(got) != B(w):
+                return "weight of cell %d (coordinate %r) is %r but it holds %d motions: the coded weight is %r" % (
+                    c["k"], c["coord"], got, cnt, w)
+        for lvl in range(1, len(rows)):
+            for j, v in enumerate(rows[lvl]):
+                ch = rows[lvl - 1][2 * j:2 * j + 2]
+                if not abs(v - sum(ch)) <= 1e-9 * sum(abs(x) for x in ch) + 5e-324:
+                    return "PDF cell row %d col %d = %r but its children sum to %r" % (lvl, j, v, sum(ch))
+    # ---- the report
+    added = kv["added"] == "1"
+    status = kv["status"]
+    if total == 0:
+        if status != "INVALID_START" or added:
+            return "no valid start but status %s added=%s" % (status, kv["added"])
+        return None
+    if (status in ("EXACT_SOLUTION", "APPROXIMATE_SOLUTION")) != added or (kv["bool"] == "1") != added:
+        return "status %s but added=%s" % (status, kv["added"])
+    if added:
+        pts = [[F(x) for x in tok.split(",")] for tok in R["path"].split()[2:]]
+        ok = False
+        for key, (st, par) in loc.items():
+            if st != pts[-1]:
+                continue
+            br, cur = [], key
+            while cur != "-1" and cur in loc and len(br) <= len(pts):
+                br.append(loc[cur][0])
+                cur = loc[cur][1]
+            if cur == "-1" and list(reversed(br)) == pts:
+                ok = True
+                break
+        if not ok:
+            return "the reported path is not a root-to-node branch of the tree"
+        d = rv_dist(pts[-1], p.goal)
+        if B(d) != kv["diff"]:
+            return "reported difference %r, goal distance of the last state is %r" % (F(kv["diff"]), d)
+        if (d < p.thr) != (status == "EXACT_SOLUTION") or (kv["approx"] == "1") != (status == "APPROXIMATE_SOLUTION"):
+            return "status %s approx=%s but goal distance %r vs threshold %r" % (status, kv["approx"], d, p.thr)
+        if kv["approx"] == "1" and kv.get("pdefdiff") != kv["diff"]:
+            return "problem definition stores difference %s, reported %s" % (kv.get("pdefdiff"), kv["diff"])
+    elif status != "TIMEOUT":
+        return "status %s without a solution" % status
+    return None
+
+
+def projest_one(ck, hbin, p):
+    """returns (what | None, kind, impl lines, model lines, R)"""
+    impl, rc, err = ck.run_bin(hbin, p.harness_script(), timeout=300)
+    if impl is None or rc != 0:
+        tail = " ".join((err or "").strip().splitlines()[-6:])[-600:]
+        return "ProjEST harness stopped (exit %s): %s" % (rc, tail), "crash", impl or [], [], {}
+    consumed, R = est_parse(impl)
+    if consumed is None:
+        return "ProjEST harness printed no script", "crash", impl, [], {}
+    for l in impl:
+        if l.startswith("cells "):
+            R["cells"] = l
+    what = projest_oracle(p, R)
+    ds = p.config() + consumed + ["solve", "cells", "pdf", "path", "next"]
+    model, rc2, err2 = ck.run_bin(ck.driver(PROJEST_DRIVER), ds, timeout=300)
+    if rc2 != 0 or model is None or len(model) < 5 or any(m == "bad-op" for m in model):
+        return what or "ProjEST driver failed rc=%s" % rc2, "spec" if what else "driver", impl, model or [], R
+    m = model[-5:]
+    if what is not None:
+        return what, "spec", impl, m, R
+    d = dict(x.split("=", 1) for x in m[0].split())
+    kv = R["kv"]
+    for key in ("status", "bool", "added", "approx", "diff", "lvs", "range", "nstart", "nnear", "ngs"):
+        if d.get(key) != kv.get(key):
+            return "model/implementation disagreement: %s differs (impl %s, model %s)" % (key, kv.get(key), d.get(key)), "diff", impl, m, R
+    for name, a, b_ in (("cell table", R["cells"], m[1]), ("pdf", R["pdf"], m[2]), ("path", R["path"], m[3]), ("next rng_ draw", R["next"], m[4])):
+        if a != b_:
+            return "model/implementation disagreement: %s differs" % name, "diff", impl, m, R
+    return None, None, impl, m, R
+
+
+def projest_jobs(ck):
+    n = 44 if ck.tier == "quick" else 400
+    r = ck.rng.fork("projest")
+    return [gen_proj_problem(r.fork("p%d" % i), i, big=ck.tier != "quick") for i in range(n)]
+
+
+def projest_judge(ck, p, res):
+    what, kind, impl, model, R = res
+    ck.traces_validated += 1
+    nm = nc = 0
+    if R.get("cells"):
+        hd = dict(x.split("=") for x in R["cells"].split()[1:4])
+        nm, nc = int(hd["motions"]), int(hd["n"])
+    ck.case(("projest", tuple(p.harness_script())), nm >= 4 and nm > nc)
+    ck.count("projest:runs")
+    ck.count("projest:gen:" + p.tag)
+    ck.count("projest:tree-motions", nm)
+    ck.count("projest:cells", nc)
+    if R.get("kv"):
+        ck.count("projest:status:" + R["kv"].get("status", "?"))
+    ck.sample(p.describe())
+    if what is None:
+        return True
+    rec = {"engine": "projest", "kind": kind, "what": what}
+    if kind in ("spec", "crash"):
+        ck.report(rec, script=p.harness_script(), expected=model, observed=impl[-6:] if impl else [], engine="projest")
+        ck.log("ProjEST property failure: %s" % what[:300])
+    else:
+        ck.disagreements += 1
+        ck.report(rec, script=p.harness_script(), expected=model, observed=impl[-6:] if impl else [], found_input=False,
+                  engine="projest", obligation="correspondence projest: ProjEST.cpp vs OmplModel.Model.ProjEST (%s)" % what)
+        ck.log("ProjEST correspondence: %s" % what[:300])
+    return False
+
+
 def setup(ck):
     build(ck)
     build_est(ck)
+    build_projest(ck)
 
 
 def plan(ck):
@@ -1254,18 +1513,21 @@ def run(ck):
                        "changes the node's leaves (history-dependent, relative to the node, no absolute epsilon)",
                        "total weight 0: any surviving element may be returned (the rule has no interval to offer)"]
     ck.lean_build(LEAN_TARGETS)
-    ck.audit(roots=["Drv.Pdf", "Drv.EST"])
+    ck.audit(roots=["Drv.Pdf", "Drv.EST", "Drv.ProjEST"])
     if ck.tier == "thorough" and ck.lean_ok:
         ck.leanchecker(["OmplModel.Props.C12"])
     hbin = build(ck)
     ebin = build_est(ck)
+    pbin = build_projest(ck)
     if not ck.lean_ok:
         return 0
     scripts = plan(ck)
     ejobs = est_jobs(ck)
+    pjobs = projest_jobs(ck)
     bad = 0
     with ThreadPoolExecutor(max_workers=14) as ex:
         eres = [ex.submit(est_one, ck, ebin, p) for p in ejobs]
+        pres = [ex.submit(projest_one, ck, pbin, p) for p in pjobs]
         results = ex.map(lambda ts: run_script(ck, hbin, ts[1]), scripts)
         for (tag, script), res in zip(scripts, results):
             if bad >= 3:
@@ -1279,15 +1541,28 @@ def run(ck):
                 continue
             if not est_judge(ck, p, fut.result()):
                 ebad += 1
+        pbad = 0
+        for p, fut in zip(pjobs, pres):
+            if pbad >= 3:
+                fut.cancel()
+                continue
+            if not projest_judge(ck, p, fut.result()):
+                pbad += 1
     return 0
 
 
 def replay(ck, data):
-    if data.get("engine") == "est":
-        ebin = build_est(ck)
-        ck.lean_build([EST_DRIVER])
-        p = EstProblem.from_script(data["script"])
-        what, kind, impl, model, R = est_one(ck, ebin, p)
+    if data.get("engine") in ("est", "projest"):
+        if data["engine"] == "est":
+            ebin = build_est(ck)
+            ck.lean_build([EST_DRIVER])
+            p = EstProblem.from_script(data["script"])
+            what, kind, impl, model, R = est_one(ck, ebin, p)
+        else:
+            pbin = build_projest(ck)
+            ck.lean_build([PROJEST_DRIVER])
+            p = ProjProblem.from_script(data["script"])
+            what, kind, impl, model, R = projest_one(ck, pbin, p)
         for l in (impl or [])[-6:]:
             print("impl:  " + l[:400])
         for l in model or []:
